@@ -6,6 +6,9 @@
                    local constants / defaults of the instrument definitions.
   TleColumns.lean  the (attribute, line, start, stop, conversion) table read off the AST
                    of tlefile.Tle._parse_tle, and the checksum rule's shape.
+  Translated.lean  T-D: the whitelisted discrete functions of tlefile.py translated statement by
+                   statement into Lean (harness/pytrans.py); PyUnicode.lean: the character classes
+                   of the running interpreter that the Python prelude PV/Py/Prelude.lean uses.
 
 Files are rewritten only when their content changes (so lake does not rebuild needlessly).
 """
@@ -409,11 +412,27 @@ def gen_kernels_instr():
     return p.stdout.decode()
 
 
+def gen_py_unicode():
+    """T-D: the character classes (`str.isspace/isdigit/isdecimal/upper`, what `int()` strips) of the interpreter that runs
+    pyorbital, for the Python prelude lean/PV/Py/Prelude.lean (harness/pytrans.py)."""
+    import pytrans
+    return pytrans.gen_unicode()
+
+
+def gen_translated():
+    """T-D: translate the whitelisted discrete functions of the current source statement by statement into Lean
+    (harness/pytrans.py; pure `ast`, nothing of /repo is imported or run).  The translator refuses what it does not know."""
+    import pytrans
+    pytrans.REPO = REPO
+    return pytrans.gen_translated()
+
+
 def regenerate():
     changed = []
     errors = []
     for name, fn in (("Consts.lean", gen_consts), ("TleColumns.lean", gen_tle_columns), ("Kernels.lean", gen_kernels),
-                     ("KernelsSgp4.lean", gen_kernels_sgp4), ("KernelsInstr.lean", gen_kernels_instr)):
+                     ("KernelsSgp4.lean", gen_kernels_sgp4), ("KernelsInstr.lean", gen_kernels_instr),
+                     ("PyUnicode.lean", gen_py_unicode), ("Translated.lean", gen_translated)):
         try:
             text = fn()
         except Exception as e:  # noqa  keep going: the other generated files must still be current
